@@ -54,6 +54,7 @@ type Task struct {
 	lkind string
 
 	weakRank int
+	prio     int            // PCT priority (higher runs first)
 	held     map[any]string // locks held by this task (lock model), value "r" or "w"
 
 	blockedAt string
@@ -90,7 +91,14 @@ type Config struct {
 	Horizon   time.Duration // simulated time after which an idle system ends the run
 	TickOneIn int           // with runnable tasks: let time pass first with probability 1/TickOneIn (0: never)
 	Sticky    int           // extra weight (in candidates) for continuing the task that ran last
-	KeepLog   bool          // keep the full event list (else only hash and counters)
+	// PCT > 0 selects priority scheduling (Burckhardt et al., "A randomized scheduler with
+	// probabilistic guarantees of finding bugs"): every task gets a random priority when it
+	// is spawned, the runnable task with the highest priority always runs, and at PCT
+	// randomly placed steps the running task's priority drops below all others. Finds
+	// orderings that need one task to be starved for a long time, which a uniform choice
+	// at every step almost never produces.
+	PCT     int
+	KeepLog bool // keep the full event list (else only hash and counters)
 	// TickBeforeWaive n > 1: when only weak waits could be waived, let time pass
 	// first with probability (n-1)/n, for up to an hour of simulated time.
 	TickBeforeWaive int
@@ -109,21 +117,23 @@ type Sim struct {
 	ch      Chooser
 	aborted atomic.Bool
 
-	mu      sync.Mutex
-	tasks   []*Task
-	byGoid  map[uint64]*Task
-	locks   map[any]*lockState
-	notify  chan struct{}
-	last    *Task
-	step    int
-	events  []Event
-	hash    uint64
-	nEvents int
-	start   time.Time
-	ranker  func(key, value any) (int64, bool)
-	onStep  func()
-	shadows map[uintptr]*shadow
-	races   []Race
+	mu        sync.Mutex
+	tasks     []*Task
+	byGoid    map[uint64]*Task
+	locks     map[any]*lockState
+	notify    chan struct{}
+	last      *Task
+	step      int
+	events    []Event
+	hash      uint64
+	nEvents   int
+	start     time.Time
+	ranker    func(key, value any) (int64, bool)
+	onStep    func()
+	shadows   map[uintptr]*shadow
+	races     []Race
+	pctPoints map[int]bool
+	pctLow    int
 
 	// counters
 	Switches   int
@@ -262,6 +272,9 @@ func (s *Sim) spawn(parent *Task, name string, f func(), internal bool) *Task {
 	t := &Task{Name: name, Internal: internal, wake: make(chan struct{})}
 	s.mu.Lock()
 	t.ID = len(s.tasks)
+	if s.cfg.PCT > 0 {
+		t.prio = 1000 + s.ch.Choose(1000, "pct priority")
+	}
 	s.tasks = append(s.tasks, t)
 	pid := -1
 	if parent != nil {
@@ -766,7 +779,23 @@ func (s *Sim) Run() Result {
 			}
 		}
 		var pick *Task
-		if len(cands) == 1 {
+		if s.cfg.PCT > 0 {
+			if s.pctPoints == nil {
+				s.pctPoints = map[int]bool{}
+				for i := 0; i < s.cfg.PCT; i++ {
+					s.pctPoints[1+s.ch.Choose(400, "pct change point")] = true
+				}
+			}
+			for _, t := range cands {
+				if pick == nil || t.prio > pick.prio || (t.prio == pick.prio && t.ID < pick.ID) {
+					pick = t
+				}
+			}
+			if s.pctPoints[s.step] {
+				s.pctLow--
+				pick.prio = s.pctLow // from now on this task runs only when nothing else can
+			}
+		} else if len(cands) == 1 {
 			pick = cands[0]
 		} else {
 			extra := 0
